@@ -81,24 +81,57 @@ func c18(c *core.Ctx) {
 	}
 	// register
 	{
+		// the registration may live in sendAsyncWithTimeout or in a private helper of it (or the whole tail of the
+		// function may have been moved into one): sequencing is decided where store and writes are distinct
+		// instructions, the store's own checks where the store is
+		isStore := func(in ssa.Instruction) bool {
+			mu, ok := in.(*ssa.MapUpdate)
+			return ok && loadedField(mu.Map).f == handlers
+		}
+		isWrite := func(in ssa.Instruction) bool {
+			call, ok := in.(ssa.CallInstruction)
+			return ok && ssax.Callee(call) == connWrite
+		}
 		var store *ssax.MapSite
 		var lookups []ssax.MapSite
-		for _, s := range ssax.ContainerSites(sendAsync, handlers) {
-			s := s
-			if s.Kind == ssax.MapStore {
-				store = &s
-			}
-			if s.Kind == ssax.MapLookup {
-				lookups = append(lookups, s)
+		realStore := siteIn(sendAsync, isStore)
+		if realStore != nil {
+			for _, s := range ssax.ContainerSites(realStore.Parent(), handlers) {
+				s := s
+				if s.Kind == ssax.MapStore {
+					store = &s
+				}
+				if s.Kind == ssax.MapLookup {
+					lookups = append(lookups, s)
+				}
 			}
 		}
 		if store == nil {
 			c.Ob("C18.register", fname(sendAsync)+"·handlers[reqID] = ch", c.P.Pos(sendAsync.Pos()), false, "no registration of the response channel in sendAsyncWithTimeout")
 		} else {
+			scope := scopeFor(sendAsync, isStore, isWrite)
+			storesL := liftedSites(scope, isStore)
+			writes := liftedSites(scope, isWrite)
+			isStoreL := func(in ssa.Instruction) bool {
+				for _, x := range storesL {
+					if x == in {
+						return true
+					}
+				}
+				return false
+			}
+			isWriteL := func(in ssa.Instruction) bool {
+				for _, w := range writes {
+					if in == w {
+						return true
+					}
+				}
+				return false
+			}
 			// the If on a bool parameter whose true edge dominates the store
 			var condFrom, condOther *ssa.BasicBlock
-			for _, b := range sendAsync.Blocks {
-				if len(b.Instrs) == 0 {
+			for _, b := range scope.Blocks {
+				if len(b.Instrs) == 0 || len(storesL) == 0 {
 					continue
 				}
 				ifi, ok := b.Instrs[len(b.Instrs)-1].(*ssa.If)
@@ -108,29 +141,14 @@ func c18(c *core.Ctx) {
 				if _, isParam := ifi.Cond.(*ssa.Parameter); !isParam {
 					continue
 				}
-				if ssax.EdgeDominates(b, b.Succs[0], store.Instr) {
+				if ssax.EdgeDominates(b, b.Succs[0], storesL[0]) {
 					condFrom, condOther = b, b.Succs[1]
 				}
 			}
-			writes := ssax.CallsTo(sendAsync, connWrite)
-			reach, tr := ssax.Reach(sendAsync, nil, func(in ssa.Instruction) bool {
-				for _, w := range writes {
-					if in == ssa.Instruction(w) {
-						return true
-					}
-				}
-				return false
-			}, func(in ssa.Instruction) bool { return in == store.Instr }, func(a, b *ssa.BasicBlock) bool { return a == condFrom && b == condOther })
-			after, _ := ssax.Reach(sendAsync, nil, func(in ssa.Instruction) bool { return in == store.Instr }, func(in ssa.Instruction) bool {
-				for _, w := range writes {
-					if in == ssa.Instruction(w) {
-						return true
-					}
-				}
-				return false
-			}, nil)
+			reach, tr := ssax.Reach(scope, nil, isWriteL, isStoreL, func(a, b *ssa.BasicBlock) bool { return a == condFrom && b == condOther })
+			after, _ := ssax.Reach(scope, nil, isStoreL, isWriteL, nil)
 			ok := !reach && after && len(writes) > 0
-			c.Ob("C18.register", fname(sendAsync)+"·register before write", pos(c, store.Instr), ok, "a response-requiring path reaches Conn.Write without having registered the handler: "+boolStr(reach), trace(c, tr)...)
+			c.Ob("C18.register", fname(sendAsync)+"·register before write", pos(c, store.Instr), ok, "a response-requiring path reaches Conn.Write without having registered the handler: "+boolStr(reach)+" (decided in "+fname(scope)+")", trace(c, tr)...)
 			// duplicate test
 			dup := false
 			for _, l := range lookups {
@@ -449,19 +467,21 @@ func c19(c *core.Ctx) {
 	c19Gate(c)
 	c.Rule("C19.pending", "pendingReq.Add(1) is followed by pendingReq.Done() on every path of sendRequestWithTimeout", 1)
 
-	// release in sendAsync
+	// release in sendAsync (the registration, and the code behind it, may live in private helpers)
 	{
-		var store ssa.Instruction
-		for _, s := range ssax.ContainerSites(sendAsync, handlers) {
-			if s.Kind == ssax.MapStore {
-				store = s.Instr
-			}
+		isStore := func(in ssa.Instruction) bool {
+			mu, ok := in.(*ssa.MapUpdate)
+			return ok && loadedField(mu.Map).f == handlers
 		}
+		store := siteIn(sendAsync, isStore)
 		if store == nil {
-			c.Fatal("C19.release: registration site not found in sendAsyncWithTimeout")
+			c.Fatal("C19.release: registration site not found in sendAsyncWithTimeout or its helpers")
 		} else {
 			isRelease := func(in ssa.Instruction) bool {
 				if call, ok := in.(ssa.CallInstruction); ok {
+					if _, isDefer := in.(*ssa.Defer); isDefer {
+						return false
+					}
 					if ssax.Callee(call) == popHandler {
 						return true
 					}
@@ -473,35 +493,59 @@ func c19(c *core.Ctx) {
 				}
 				return false
 			}
-			for _, ret := range ssax.Returns(sendAsync) {
-				if len(ret.Results) < 2 || ssax.IsNil(ssax.RetVal(ret, 1)) {
-					continue // success return: slot handed to the caller
-				}
-				// reachable from store without release?
-				reach, tr := ssax.Reach(sendAsync, store, func(in ssa.Instruction) bool { return in == ssa.Instruction(ret) }, isRelease, nil)
-				// deferred cleanup counts
-				if reach && hasDeferredRelease(sendAsync, popHandler, handlers) {
-					reach = false
-				}
-				via := "?"
-				for _, o := range ssax.Origins(ssax.RetVal(ret, 1), nil, 0) {
-					if o.Call != nil {
-						via = o.Call.Name()
+			// walk from the function that holds the store up to sendAsyncWithTimeout
+			fnAt, from := store.Parent(), store
+			for hops := 0; hops < 4; hops++ {
+				for _, ret := range ssax.Returns(fnAt) {
+					ei := len(ret.Results) - 1
+					if ei < 0 || !isErrorResult(fnAt, ei) || ssax.IsNil(ssax.RetVal(ret, ei)) {
+						continue // success return: slot handed to the caller
 					}
+					// a return that passes on the results of the helper call we came from is decided in that helper
+					if call, ok := from.(*ssa.Call); ok && from != store {
+						if ev := errResult(call); ev != nil && denotes(ssax.RetVal(ret, ei), ev) {
+							continue // `return helper(...)` or `if err != nil { return err }` right behind the call
+						}
+					}
+					reach, tr := ssax.Reach(fnAt, from, func(in ssa.Instruction) bool { return in == ssa.Instruction(ret) }, isRelease, nil)
+					if reach && hasDeferredRelease(fnAt, popHandler, handlers) {
+						reach = false
+					}
+					via := "?"
+					for _, o := range ssax.Origins(ssax.RetVal(ret, ei), nil, 0) {
+						if o.Call != nil {
+							via = o.Call.Name()
+						}
+					}
+					c.Ob("C19.release", fname(fnAt)+"·error return after registration (error from "+via+")", pos(c, ret), !reach, "handler entry leaked on this error return (the slot stays in SecureChannel.handlers for ever): "+boolStr(reach), trace(c, tr)...)
 				}
-				c.Ob("C19.release", fname(sendAsync)+"·error return after registration (error from "+via+")", pos(c, ret), !reach, "handler entry leaked on this error return (the slot stays in SecureChannel.handlers for ever): "+boolStr(reach), trace(c, tr)...)
+				if fnAt == sendAsync {
+					break
+				}
+				up := liftOne(sendAsync, fnAt)
+				if up == nil {
+					c.Fatal("C19.release: cannot relate %s to sendAsyncWithTimeout", fname(fnAt))
+					break
+				}
+				fnAt, from = up.Parent(), up
 			}
 		}
 	}
 	// release + wait in sendRequestWithTimeout
 	{
 		var sel *ssa.Select
-		for _, b := range srt.Blocks {
-			for _, in := range b.Instrs {
-				if s, ok := in.(*ssa.Select); ok && s.Blocking {
-					sel = s
+		srtOuter := srt
+		for _, g := range withHelpers(srtOuter) {
+			for _, b := range g.Blocks {
+				for _, in := range b.Instrs {
+					if s, ok := in.(*ssa.Select); ok && s.Blocking && sel == nil {
+						sel = s
+					}
 				}
 			}
+		}
+		if sel != nil {
+			srt = sel.Parent() // the wait (and the returns behind it) may live in a private helper
 		}
 		if sel == nil {
 			c.Ob("C19.wait", fname(srt)+"·response select", c.P.Pos(srt.Pos()), false, "no blocking select waits for the response")
@@ -567,6 +611,7 @@ func c19(c *core.Ctx) {
 		}
 	}
 	// pending
+	srt = fn(c, "uasc", "SecureChannel", "sendRequestWithTimeout")
 	{
 		var add, done ssa.CallInstruction
 		for _, call := range ssax.Calls(srt) {
